@@ -262,4 +262,15 @@ theorem fft_formulas_read_the_expected_fields_C07 :
   rw [FormulaTie.fft_formulas_read_the_expected_fields]
   decide
 
+/-- the gap between the code (`as f32` divisions) and `DivArith.exact` (what the accounting theorems above use): for EVERY
+rounding of the quotient that is monotone, keeps the integers up to 2²⁴ and has relative error ≤ 2⁻²⁴ (the textbook facts
+about round-to-nearest binary32, taken as hypotheses because no IEEE library is installed), and all sizes below 2²⁴, the
+rounded quotient has the same ceiling and floor as the exact one.  So for every block and chunk size below 16 777 216 frames
+the FFT bookkeeping of the code IS the exact integer bookkeeping of the theorems. -/
+theorem f32_divisions_are_exact_below_2_pow_24 {rnd : ℚ → ℚ} (hr : DivBridge.F32Rounding rnd) (a b : ℕ)
+    (ha : a < 2 ^ 24) (hb : 0 < b) :
+    (DivBridge.ofRounding rnd).cdiv a b = DivArith.exact.cdiv a b ∧
+    (DivBridge.ofRounding rnd).fdiv a b = DivArith.exact.fdiv a b :=
+  DivBridge.ofRounding_eq_exact hr a b ha hb
+
 end Rubato.C07
